@@ -13,14 +13,16 @@ import (
 // one position inside one command context, and what calling its entry template
 // must return.
 type Program struct {
-	ID     int    `json:"id"`
-	NS     string `json:"ns"`
-	Pos    string `json:"pos"`   // position name
-	Class  string `json:"class"` // position class (signature)
-	Wrap   string `json:"wrap"`  // command context
-	S      string `json:"s"`     // the literal's intended characters
-	Expect string `json:"expect"`
+	ID     int       `json:"id"`
+	NS     string    `json:"ns"`
+	Pos    string    `json:"pos"`   // position name
+	Class  string    `json:"class"` // position class (signature)
+	Wrap   string    `json:"wrap"`  // command context
+	S      string    `json:"s"`     // the literal's intended characters
+	Expect string    `json:"expect"`
 	File   core.File `json:"file"`
+	// Extra are further files of the bundle (same namespace, loaded after File).
+	Extra []core.File `json:"extra,omitempty"`
 	// Globals given through Bundle.AddGlobalsMap (JSON-able values; strings raw).
 	Globals map[string]interface{} `json:"globals,omitempty"`
 	// GlobalsText, when set, is parsed with soy.ParseGlobals instead.
@@ -33,13 +35,14 @@ type Program struct {
 }
 
 type gen struct {
-	ns      string
-	params  map[string]bool
-	data    map[string]interface{}
-	globals map[string]interface{}
-	gtext   string
-	needEcho bool
-	transl  *string
+	ns        string
+	params    map[string]bool
+	data      map[string]interface{}
+	globals   map[string]interface{}
+	gtext     string
+	needEcho  bool
+	needOther bool // a second FILE in the same namespace defines .other
+	transl    *string
 }
 
 func (g *gen) use(p string, v interface{}) {
@@ -290,14 +293,29 @@ var wrappers = []wrapper{
 	{"nested", false, func(f, e string, g *gen) (string, string) {
 		return "{foreach $w in [1]}{if isFirst($w)}{switch index($w)}{case 0}{debugger}" + f + "{/switch}{/if}{/foreach}", e
 	}},
+	{"shared-namespace", false, func(f, e string, g *gen) (string, string) {
+		g.needOther = true
+		return "{call .other/}" + f + "{call .other/}", "[other]" + e + "[other]"
+	}},
 	{"between-quotes", false, func(f, e string, g *gen) (string, string) {
 		return `a'"\` + f + `\"'b`, `a'"\` + e + `\"'b`
 	}},
 }
 
+// nsFor gives program id its namespace: one, two or four dot segments.
+func nsFor(id int) string {
+	switch id % 4 {
+	case 2:
+		return fmt.Sprintf("q%d.sub", id)
+	case 3:
+		return fmt.Sprintf("q%d.a.b.c", id)
+	}
+	return fmt.Sprintf("q%d", id)
+}
+
 // Build assembles the Soy file of one program.
 func Build(id int, pos position, w wrapper, s string) (*Program, bool) {
-	g := &gen{ns: fmt.Sprintf("q%d", id), params: map[string]bool{}, data: map[string]interface{}{}, globals: map[string]interface{}{}}
+	g := &gen{ns: nsFor(id), params: map[string]bool{}, data: map[string]interface{}{}, globals: map[string]interface{}{}}
 	if w.msg && !pos.inMsg {
 		return nil, false
 	}
@@ -326,15 +344,21 @@ func assemble(id int, g *gen, pos, class, wrap, s, body, exp string) *Program {
 		b.WriteString("\n/** @param p */\n{template .echo autoescape=\"false\"}{$p}{/template}\n")
 		tmpls = append(tmpls, g.ns+".echo")
 	}
+	var extra []core.File
+	if g.needOther {
+		extra = append(extra, core.File{Name: g.ns + "-2.soy",
+			Text: "{namespace " + g.ns + "}\n\n/** */\n{template .other autoescape=\"false\"}[other]{/template}\n"})
+		tmpls = append(tmpls, g.ns+".other")
+	}
 	sort.Strings(tmpls)
 	return &Program{ID: id, NS: g.ns, Pos: pos, Class: class, Wrap: wrap, S: s, Expect: exp,
-		File: core.File{Name: g.ns + ".soy", Text: b.String()}, Globals: g.globals, GlobalsText: g.gtext,
+		File: core.File{Name: g.ns + ".soy", Text: b.String()}, Extra: extra, Globals: g.globals, GlobalsText: g.gtext,
 		Data: g.data, Templates: tmpls, Translation: g.transl}
 }
 
 // BuildGlobalKind builds the program that prints a non-string global.
 func BuildGlobalKind(id int, k globalKind, parsed bool, w wrapper) (*Program, bool) {
-	g := &gen{ns: fmt.Sprintf("q%d", id), params: map[string]bool{}, data: map[string]interface{}{}, globals: map[string]interface{}{}}
+	g := &gen{ns: nsFor(id), params: map[string]bool{}, data: map[string]interface{}{}, globals: map[string]interface{}{}}
 	pos := "global-" + k.name
 	if parsed {
 		if k.text == "" {
